@@ -36,7 +36,7 @@ THEOREMS = {
     'C12': [('ChessVerif.Props.C12', ['Chess.Props.C12_kpk', 'Chess.Props.C12_mirror', 'Chess.Props.C12_certificate', 'Chess.Props.C12_index', 'Chess.Props.C12_normalize'])],
     'C13': [('ChessVerif.Props.C13', ['Chess.Props.C13_geometry', 'Chess.Props.C13_normSq_mirror', 'Chess.Props.C13_combine_neg', 'Chess.Props.C13_phase_symm'])],
     'C14': [('ChessVerif.Props.C14', ['Chess.Props.C14_cache_transparent', 'Chess.Props.C14_bounded', 'Chess.Props.C14_constants', 'Chess.Props.C14_cap_partial'])],
-    'C15': [('ChessVerif.Props.C15', ['Chess.Props.C15_capture_quiet_full', 'Chess.Props.C15_gives_check_noncastle', 'Chess.Props.C15_gives_check', 'Chess.Props.C15_gives_check_ordinary', 'Chess.Props.C15_quiet', 'Chess.Props.C15_castling', 'Chess.Props.C15_capture_rules'])],
+    'C15': [('ChessVerif.Props.C15', ['Chess.Props.C15_capture_quiet_full', 'Chess.Props.C15_gives_check_full', 'Chess.Props.C15_gives_check_noncastle', 'Chess.Props.C15_gives_check', 'Chess.Props.C15_gives_check_ordinary', 'Chess.Props.C15_quiet', 'Chess.Props.C15_castling', 'Chess.Props.C15_capture_rules'])],
     'C17': [('ChessVerif.Props.C17', ['Chess.Props.C17_roundtrip', 'Chess.Props.C17_matcher_piece', 'Chess.Props.C17_matcher_pawn', 'Chess.Props.C17_castling'])],
     'C18': [('ChessVerif.Props.C18', ['Chess.Props.C18_tables', 'Chess.Props.C18_anchors', 'Chess.Props.C18_pieces', 'Chess.Props.C18_key_noep', 'Chess.Props.C18_key'])],
     'C16': [('ChessVerif.Props.C16', ['Chess.Props.C16_encoding', 'Chess.Props.C16_encoding_move', 'Chess.Props.C16_castle_code', 'Chess.Props.C16_moveinfo',
@@ -363,8 +363,8 @@ def check_C07(ctx):
 
 def check_C15(ctx):
     return play_family(ctx, 'move classification', moves_fields(['uci', 'cqk'], ('moves',)), moves_fields(['uci', 'cqk'], ('moves',)), SZ_MOVES,
-                       'theorems in Props/C15.lean + three-way differential on capture/quiet/check flags of every legal move; the spec decides by '
-                       'playing the move under the rules', assumptions=['Spec.wf positions'])
+                       'FULL: theorems in Props/C15.lean (capture, quiet and gives-check = the rules\' answers for every legal move of every Spec.wf position) + three-way differential on '
+                       'capture/quiet/check flags of every legal move; the spec decides by playing the move under the rules', assumptions=['Spec.wf positions'])
 
 
 def check_C16(ctx):
@@ -1188,7 +1188,7 @@ def go_run(ctx, texts, timeout=1500):
         except subprocess.TimeoutExpired:
             return text, None, [], 'TIMEOUT: the harness did not finish (a search that does not terminate?)'
         blocks = '\n'.join(l for l in C if l.split(' ', 1)[0] in ('GO', 'R', 'E', 'INFO', 'BESTMOVE', 'OUT', 'END')) + '\n'
-        p = subprocess.run([ctx.drv, 'accept'], input=blocks, stdout=subprocess.PIPE, stderr=subprocess.PIPE, text=True, timeout=timeout)
+        p = subprocess.run([ctx.drv, 'accept'], input=blocks, stdout=subprocess.PIPE, stderr=subprocess.PIPE, text=True, errors='replace', timeout=timeout)
         return text, (rc, C, p.stdout.splitlines()), [], err if rc != 0 else None
 
     out = []
@@ -1473,6 +1473,9 @@ def check_C06(ctx):
         r = uci_sched.go_again_session(exe, fen)
         ctx.cov['evaluations'] += 1
         ctx.count('go_right_after_bestmove_sessions')
+        ctx.count('go_right_after_bestmove_parked' if r['parked'] else 'go_right_after_bestmove_NOT_parked')
+        if not r['parked']:
+            ctx.notes.append('the after-bestmove schedule point did not fire in a go-again session (the engine no longer writes `bestmove` through stdio?): that schedule was not exercised')
         if len(r['bestmoves']) != 2:
             V.report_violation(ctx, f"a `go` sent the moment the previous bestmove became visible was answered by {len(r['bestmoves']) - r['first']} bestmove lines (expected 1)",
                                f'# run: VERIF_PARK=8:1:500 cppdrv uci   (the thread that writes `bestmove` is parked right after the write)\nposition fen {fen}\ngo depth 1\n'
@@ -1720,7 +1723,7 @@ def check_C10(ctx):
                   'position fen 6k1/5ppp/5n2/3q4/3Q4/8/5PPP/4R1K1 w - - 0 1\ngo depth 3 searchmoves d4d5 e1e8\ngo movetime 200\n'
                   'position startpos moves e2e4 e7e5\ngo nodes 500\ngo wtime 1000 btime 1000 movestogo 5\n')
         import threading as _th
-        pr = subprocess.Popen(['valgrind', '--error-exitcode=0', '--track-origins=no', '-q', vexe], stdin=subprocess.PIPE, stdout=subprocess.PIPE, stderr=subprocess.PIPE, text=True)
+        pr = subprocess.Popen(['valgrind', '--error-exitcode=0', '--track-origins=no', '-q', vexe], stdin=subprocess.PIPE, stdout=subprocess.PIPE, stderr=subprocess.PIPE, text=True, errors='replace')
         outl = []
 
         def _rd():
